@@ -56,13 +56,20 @@ def run_case(case):
         lines.append(l)
         codes.append(code)
     inp = ("\n".join(lines) + "\n").encode()
-    rc, out, err = vlib.run_delta(["--no-gitconfig", "--true-color", "always", "--blame-palette", palette(case["n"]),
+    close = case.get("tc") == "never"
+    # distinct but close colours: without 24-bit colour they are one and the same cell of the 256-colour cube
+    pal = " ".join("#%02x%02x%02x" % (0x30 + 2 * i, 0x30 + 2 * i, 0x30 + 2 * i) for i in range(case["n"])) if close else palette(case["n"])
+    rc, out, err = vlib.run_delta(["--no-gitconfig", "--true-color", case.get("tc", "always"), "--blame-palette", pal,
                                    "--paging", "never", "--width", "200"], stdin=inp)
     rows = term.decode(out) if rc == 0 else []
     cols = []
+    ids = {}
     for r in rows:
         bg = r.cells[0][2] if r.cells else None
-        if bg and bg[0] == "rgb" and bg[1] == bg[2] == bg[3] and 1 <= bg[1] <= case["n"]:
+        if close:
+            # colours are identified by what the terminal shows (numbered in order of first appearance)
+            cols.append(None if not bg or bg == term.DEFAULT else ids.setdefault(bg, len(ids)))
+        elif bg and bg[0] == "rgb" and bg[1] == bg[2] == bg[3] and 1 <= bg[1] <= case["n"]:
             cols.append(bg[1] - 1)
         else:
             cols.append(None)
@@ -135,6 +142,13 @@ def gen_cases(tier, seed):
             else:
                 ks.append(rng.randrange(nk))
         cases.append({"n": n, "keys": ks, "flags": [False] * L, "seed": seed + i, "kind": "random"})
+    # distinct palette colours that are close to each other, with 24-bit colour off
+    for i in range(60 if tier == "quick" else 600):
+        rng = vlib.case_rng(seed, PID, 9000 + i)
+        n = rng.choice([2, 3, 4])
+        L = rng.randint(2, 12)
+        ks = [rng.randrange(4) for _ in range(L)]
+        cases.append({"n": n, "keys": ks, "flags": [False] * L, "seed": seed + i, "kind": "close-colours-no-24-bit", "tc": "never"})
     # separate stream: lines that git itself coloured, mixed with uncoloured ones
     nmix = 60 if tier == "quick" else 400
     for i in range(nmix):
@@ -182,7 +196,9 @@ def main(tier, replay=None):
                   "impl_colours": o["cols"]})
         why = []
         # correspondence
-        if m.startswith("PANIC"):
+        if case.get("tc") == "never":
+            corr = True    # colours are identified up to renaming there: decided by the spec predicate below
+        elif m.startswith("PANIC"):
             corr = o["rc"] != 0
         else:
             want = [None if c == "-" else int(c) for c in m.split("\t")[1].split(",")]
